@@ -761,11 +761,29 @@ func (ex *Exec) applyContract(fr *Frame, st *State, ct *Contract, fn *ssa.Functi
 		st.assume(g)
 	}
 	// extra call-site obligations of the function under verification (at_call clauses)
-	if ex.contract != nil && fr.fn == ex.fn && fn != nil {
-		for i, rq := range ex.contract.AtCall[fn.Name()] {
+	if ex.contract != nil && fr.fn == ex.fn {
+		cname := ct.FnName
+		if fn != nil {
+			cname = fn.Name()
+		} else if i := strings.LastIndex(cname, ")."); i >= 0 {
+			cname = cname[i+2:] // interface method: "(Iface).Method"
+		}
+		for i, rq := range ex.contract.AtCall[cname] {
 			env := mkEnv(st, nil, false)
+			// the callee's parameters by name, and behind them the caller's own parameters
+			merged := map[string]Value{}
+			for k, v := range fr.params {
+				merged[k] = v
+			}
+			for k, v := range cf.params {
+				merged[k] = v
+			}
+			env.fr = &Frame{fn: fr.fn, params: merged, named: map[string][]*Cell{}}
+			if fr.fn.Pkg != nil {
+				env.pkg = fr.fn.Pkg.Pkg
+			}
 			g := env.evalBool(rq.Expr)
-			ex.addOblSk("atcall", fmt.Sprintf("%s.%d", fn.Name(), i+1), pos, st, g, env.skolems, rq.Src)
+			ex.addOblSk("atcall", fmt.Sprintf("%s.%d", cname, i+1), pos, st, g, env.skolems, rq.Src)
 		}
 	}
 	pre := st.clone()
